@@ -223,7 +223,7 @@ static int crl_parse_desc(const char *d, crl_case_t *c)
     {
         return -1;
     }
-    p = strstr(d, "l=") + 2;
+    p = strstr(d, ";l=") + 3;   /* (not "l=": that also occurs in "crl=") */
     while (*p >= '0' && *p <= '9' && c->nload < 3)
     {
         int v = atoi(p);
@@ -275,6 +275,14 @@ static void crl_run_case(const crl_case_t *c, mx_result_t *r)
         u_dump_pem(anch[0], "trust anchor");
     }
     psCRL_DeleteAll();
+    {
+        int q;
+        for (q = 0; q < nU; q++)
+        {
+            u_forget(q, 0);
+            u_forget(q, 1);
+        }
+    }
     for (i = 0; i < c->nload; i++)
     {
         int level = c->load[i] / CV_N, v = c->load[i] % CV_N, rc, arc = 1;
@@ -326,6 +334,16 @@ static void crl_run_case(const crl_case_t *c, mx_result_t *r)
     ms_run(chain, n, anch, 1, &ms);
     ref_lax(chain, n, anch, 1, &lax);
     psCRL_DeleteAll();
+    /* the CRL code keeps state in the certificate objects it has seen: every CRL case starts from fresh parses, exactly
+       like its replay */
+    {
+        int q;
+        for (q = 0; q < nU; q++)
+        {
+            u_forget(q, 0);
+            u_forget(q, 1);
+        }
+    }
     r->nontrivial = 1;
     r->transitions = (uint32_t) (n + c->nload + c->nh);
     snprintf(r->outcome, sizeof(r->outcome), "crl|ms=%s|ref=%s|h%d", ms.label, revoked ? "revoked" : unknown ? "dont-care" : "not-revoked", c->nh);
